@@ -47,7 +47,7 @@ static std::string build_phrase(FuzzedDataProvider& fdp, unsigned& coin) {
         case 5: t[p] = GOLD->langs[fdp.ConsumeIntegralInRange<size_t>(0, GOLD->langs.size() - 1)].words[fdp.ConsumeIntegralInRange<unsigned>(0, 2047)]; break;
         case 6: t[p].clear(); break;
         case 7: { auto cps = model::codepoints(fdp.ConsumeBool() ? model::strip_marks(t[p]) : model::nfkd(t[p])); size_t n = fdp.ConsumeIntegralInRange<size_t>(0, cps.size()); cps.resize(n); t[p] = model::utf8(cps); } break;
-        case 8: t[p] += fdp.ConsumeBytesAsString(fdp.ConsumeIntegralInRange<size_t>(0, 6)); break;
+        case 8: { std::string x = fdp.ConsumeBytesAsString(fdp.ConsumeIntegralInRange<size_t>(0, 6)); if (fdp.ConsumeBool()) t[p] += x; else t[p] = x + t[p]; } break;
         case 9: coin = fdp.ConsumeIntegralInRange<unsigned>(0, 2047); break;
         case 10: t[p] = std::string(fdp.ConsumeIntegralInRange<size_t>(0, 600), (char)fdp.ConsumeIntegralInRange<int>(0x21, 0x7E)); break;
         case 11: { std::string acc; size_t n = fdp.ConsumeIntegralInRange<size_t>(0, 200); for (size_t i = 0; i < n; i++) acc += "\xcc\x81"; t[p] += acc; } break;
